@@ -135,10 +135,14 @@ func walkPatterns(n ast.Node, set map[string]bool) {
 				seen++ // a comment is a prefix parse function too: the next statement can merge with it
 				continue
 			}
-			if r, isRet := s.(*ast.ReturnStatement); isRet && r.ReturnValue == nil {
-				for _, later := range x.Statements[idx+1:] {
-					if _, isC := later.(*ast.Comment); !isC {
-						set["bare-return-followed-by-statement"] = true
+			// the recorded finding: a bare return, a LINE comment right after it (the only way the parser accepts a statement
+			// after a bare return in the same block), then another statement
+			if r, isRet := s.(*ast.ReturnStatement); isRet && r.ReturnValue == nil && idx+1 < len(x.Statements) {
+				if cm, isC := x.Statements[idx+1].(*ast.Comment); isC && cm.Value().Type() == token.LINECOMMENT {
+					for _, later := range x.Statements[idx+2:] {
+						if _, isC := later.(*ast.Comment); !isC {
+							set["bare-return-followed-by-statement"] = true
+						}
 					}
 				}
 			}
@@ -213,8 +217,11 @@ func walkPatterns(n ast.Node, set map[string]bool) {
 // RTSig builds the signature of a round-trip failure.
 func RTSig(prog *ast.Statements, mode, outcome string) string {
 	if prog != nil {
-		if p := KnownPatterns(prog); len(p) > 0 {
-			return "roundtrip:" + p[0]
+		for _, p := range KnownPatterns(prog) {
+			if p == "bare-return-followed-by-statement" && mode != "compact" {
+				continue // that finding is about compact mode dropping the comment
+			}
+			return "roundtrip:" + p
 		}
 	}
 	return fmt.Sprintf("roundtrip-unclassified:%s:%s", mode, outcome)
